@@ -19,6 +19,8 @@ fn main() {
 		"params_builder_roundtrip" => probes::params_builder_roundtrip(),
 		"http_body_chunking" => probes::http_body_chunking(),
 		"http_content_type_gate" => probes::http_content_type_gate(),
+		"client_survives_hostile_ids" => probes::client_survives_hostile_ids(),
+		"client_subscription_array_equals_single" => probes::client_subscription_array_equals_single(),
 		_ => json!({"probe": name, "error": "unknown probe"}),
 	};
 	println!("{}", res);
